@@ -26,11 +26,28 @@ def _authenticated_edge(term, meaning, *_):
             return False
         n = x[1].lower()
         return ("hmac" in n or "message_integrity" in n or "verify_integrity" in n or "check_integrity" in n or "verify_message" in n
-                or "constant_time_eq" in n)
+                or "constant_time_eq" in n or "valid_integrity" in n)
     def auth_field(x):
         return (x[0] == "field" and x[2] in ("integrity_ok", "integrity_verified", "message_integrity_valid", "authenticated")) or \
                (x[0] in ("var", "arg") and x[1] in ("authenticated", "integrity_ok"))
-    return mir.has(term, auth_call) or mir.has(term, auth_field)
+    if mir.has(term, auth_call):
+        # the edge on which the verification SUCCEEDED (`!has_valid_integrity(..)` false, `has_valid_integrity(..)` true)
+        t, neg = term, False
+        while t[0] == "un" and t[1] == "Not":
+            t, neg = t[2], not neg
+        if isinstance(meaning, bool):
+            return meaning != neg
+        return meaning in ("Ok", "Some")
+    return mir.has(term, auth_field) and (meaning is True or not isinstance(meaning, bool))
+
+
+def _not_webrtc_edge(term, meaning, *_):
+    """C06 speaks about WebRTC mode: the edge on which transport_mode is known NOT to be WebRtc (RTP-mode peers probe
+    and latch with bare Binding requests by design)"""
+    if term[0] == "call" and "PartialEq" in term[1] and isinstance(meaning, bool) and mir.has_field(term, "transport_mode") and \
+            mir.has(term, lambda x: x[0] == "agg" and x[2] == "WebRtc"):
+        return meaning is term[1].endswith("::ne")
+    return False
 
 
 def _effects(body):
@@ -59,7 +76,7 @@ def r06_1(ctx):
     for name in (REQ, TCPNOM):
         b = ctx.body(name)
         r.scope.append(name)
-        g = core.guard_edges(b, _authenticated_edge)
+        g = core.guard_edges(b, _authenticated_edge) + core.guard_edges(b, _not_webrtc_edge)
         for bi, site in _effects(b):
             total += 1
             if g and core.k1(b, [bi], g)[bi] is None:
@@ -180,6 +197,8 @@ def r06_3(ctx):
 
 
 UNAUTH_READS_OK = {
+    "username": "read in order to authenticate the request (first half must be the local ufrag)",
+    "integrity": "read by has_valid_integrity in order to authenticate the request",
     "transaction_id": "echoed in the response; selects nothing",
     "use_candidate": "the nomination flag: its effect sites are the R06.1 known findings",
 }
@@ -208,7 +227,7 @@ def r06_4(ctx):
         b = ctx.body(name)
         r.scope.append(name)
         params = _msg_params(ctx, name)
-        g = core.guard_edges(b, _authenticated_edge)
+        g = core.guard_edges(b, _authenticated_edge) + core.guard_edges(b, _not_webrtc_edge)
 
         def from_msg(x):
             return x[0] == "field" and x[2] in fields and mir.has(x[1], lambda y: (y[0] in ("arg", "var") and y[1] in params) or
